@@ -180,7 +180,8 @@ def _s_cases():
     destination (only act/tmp/cd): the restriction of every reference must be applied, not only the first one's."""
     i = 0
     for base in ('home', 'act-home', 'here', 'act', 'tmp'):
-        for form in ('lead', 'relsym', 'mixed'):
+        # sep-*: a legal reading reference in an EARLIER instruction ([setup]), the creating reference in a later one
+        for form in ('lead', 'relsym', 'mixed', 'sep-file', 'sep-dir', 'sep-copy'):
             for depth in (1, 2):
                 for phase in ('setup', 'before-assert', 'cleanup'):
                     i += 1
@@ -699,8 +700,19 @@ def run_s(case, ctx):
         instr = 'copy @[%s]@/src.txt @[%s]@/generated.txt' % (x, x)
     elif case['form'] == 'relsym':
         instr = 'copy -rel %s src.txt -rel %s generated.txt' % (x, x)
-    else:
+    elif case['form'] == 'mixed':
         instr = 'copy -rel %s src.txt @[%s]@/generated.txt' % (x, x)
+    else:
+        # the reading instruction comes first, in [setup]
+        defs = defs + pre + ['copy @[%s]@/src.txt -rel-tmp read-legally.txt' % x,
+                             'def path READ_TOO = -rel %s src.txt' % x]
+        pre = []
+        if case['form'] == 'sep-file':
+            instr = 'file @[%s]@/generated.txt = "source text"' % x
+        elif case['form'] == 'sep-dir':
+            instr = 'dir -rel %s generated.txt' % x
+        else:
+            instr = 'copy -rel-tmp read-legally.txt -rel %s generated.txt' % x
     L = ['[setup]'] + defs
     if case['phase'] == 'setup':
         L += pre + [instr]
@@ -733,8 +745,9 @@ def run_s(case, ctx):
         hd = _diff(before, after)
         if base in ('home', 'act-home', 'here'):
             if not (r.rc == 65 and ident == 'VALIDATION_ERROR'):
-                bad('the same path symbol (relative to %s) as source AND destination of copy: the destination must be '
-                    'rejected before execution (VALIDATION_ERROR/65), got %s/%r' % (base, ident, r.rc))
+                bad('the same path symbol (relative to %s) read legally and then used as destination (%s): the '
+                    'destination must be '
+                    'rejected before execution (VALIDATION_ERROR/65), got %s/%r' % (base, case['form'], ident, r.rc))
             if r.new_tmp_entries or any(e[0] == 'tempfile.mkdtemp' for e in r.audit):
                 bad('a sandbox was created although the case must be rejected before execution')
             if any(hd.values()):
@@ -746,7 +759,10 @@ def run_s(case, ctx):
                 sds = r.out.strip()
                 sub = {'act': 'act', 'tmp': 'tmp'}[base]
                 gp = os.path.join(sds, sub, 'sub' if case['depth'] == 2 else '', 'generated.txt')
-                if _read(gp) != 'source text':
+                if case['form'] == 'sep-dir':
+                    if not os.path.isdir(gp):
+                        bad('the directory is not created at %s' % os.path.relpath(gp, sds))
+                elif _read(gp) != 'source text':
                     bad('the copied file is not at %s with the source contents' % os.path.relpath(gp, sds))
             if any(hd.values()):
                 bad('home directories modified: %r' % (hd,))
